@@ -225,11 +225,41 @@ def rule_m3(chk: Check, mach) -> None:
                 chk.finding("M3", fi.key, f"consult-url:{norm(a0)}", why0, fi.loc(c))
             # arg1: peer address
             ok1 = True
-            for _, le in origins(defs, node, args[1]):
+
+            def _ip_leaves(leaves, depth=0):
+                # an argument-free helper method of the class stands for the values it returns
+                out = []
+                for _n, le in leaves:
+                    callee = None
+                    if isinstance(le, ast.Call) and not le.args and not le.keywords and (dotted(le.func) or "").startswith("self.") and depth < 2:
+                        callee = chk.proj.find_method(ci, (dotted(le.func) or "").split(".")[-1])
+                    if callee is None:
+                        out.append((_n, le))
+                        continue
+                    g2 = build_cfg(chk.proj, callee)
+                    d2 = Defs(g2)
+                    rets = [x for x in g2.nodes if x.kind == "stmt" and isinstance(x.ast, ast.Return) and x.ast.value is not None]
+                    if not rets:
+                        out.append((_n, le))
+                    for r in rets:
+                        out += _ip_leaves(origins(d2, r, r.ast.value), depth + 1)
+                return out
+
+            for _, le in _ip_leaves(origins(defs, node, args[1])):
                 txt = norm(le)
                 if isinstance(le, ast.Constant):
                     continue
-                if "self.peer_name[0]" not in txt or any(ch not in ("self.peer_name", "self.peer_name[0]", "self") for ch in _chains(le)):
+                def _plain_addr(e):
+                    # the address itself, possibly `str(...)` of it, possibly defaulted when there is no peer name
+                    if isinstance(e, ast.IfExp):
+                        return _plain_addr(e.body) and _plain_addr(e.orelse)
+                    if isinstance(e, ast.Constant):
+                        return True
+                    if isinstance(e, ast.Call) and dotted(e.func) == "str" and len(e.args) == 1:
+                        return _plain_addr(e.args[0])
+                    return norm(e) == "self.peer_name[0]"
+
+                if "self.peer_name[0]" not in txt or any(ch not in ("self.peer_name", "self.peer_name[0]", "self") for ch in _chains(le)) or not _plain_addr(le):
                     ok1 = False
                     chk.finding("M3", fi.key, f"consult-ip:{txt[:50]}", f"the client address given to the chain is `{txt}`, not the transport's peer address", fi.loc(c))
             # arg2: fingerprint of the presented certificate
